@@ -91,9 +91,9 @@ def run(tier="quick", seed=0):
             if not f3_trigger(uniq):
                 for exclude_const in (False, True):
                     subset = None
-                    if jobs and rnd.random() < 0.4:
-                        subset = rnd.sample(sorted(jobs), rnd.randint(1, len(jobs)))
-                    sel = [jobs[i][1] for i in (subset or sorted(jobs))]
+                    if jobs and rnd.random() < 0.5:
+                        subset = rnd.sample(sorted(jobs), rnd.randint(0, len(jobs)))     # incl. the empty selection
+                    sel = [jobs[i][1] for i in (sorted(jobs) if subset is None else subset)]
                     want = ref_schema(sel, exclude_const)
                     try:
                         sch = p.detect_schema(exclude_const=exclude_const, subset=subset)
